@@ -221,25 +221,37 @@ theorem ackSafe_prop {s : Race.St} (h : Race.ackSafe s = true) (ha : Acked s) : 
     | inr hg => exact hg
   · cases h
 
-/-- For EVERY interleaving, every configuration (Serialize on or off, trash lifetime zero or not, copy
-absent / intact / corrupt, old or young, TOUCH or PUT, DELETE or trash-list item): an acknowledged
-PUT/TOUCH leaves a copy with a current timestamp (intact, for a PUT) at the block path at every later
-point of the execution. -/
-theorem C04_race_protects (c : Race.Cfg) (sched : List Bool) :
+/-- For EVERY interleaving of one PUT/TOUCH with one DELETE or trash-list item, every configuration
+(Serialize on or off, trash lifetime zero or not, copy absent / intact / corrupt, old or young): an
+acknowledged PUT/TOUCH leaves a copy with a current timestamp (intact, for a PUT) at the block path at
+every later point of the execution. -/
+theorem C04_race_protects (c : Race.Cfg) (sched : List Bool) (htop : c.top ≠ .untrash) :
     Acked (Race.run sched (Race.init c)) → Protected (Race.run sched (Race.init c)) :=
-  ackSafe_prop (Race.run_ackSafe c sched)
+  ackSafe_prop (Race.run_ackSafe c htop sched)
+
+/-- One PUT/TOUCH against one UNTRASH of the same block (Untrash takes neither the Serialize lock nor
+the flock; it renames the trashed copy over whatever is at the block path, then stamps it): for every
+interleaving, once both requests have finished an acknowledged PUT/TOUCH has a copy with a current
+timestamp at the block path. (Between Untrash's Rename and its Chtimes the path transiently holds the
+restored copy with its old timestamp; a Trash running exactly then would be a third request — outside
+this property's quantifier, which pairs the write with ONE trash request.) -/
+theorem C04_race_untrash (c : Race.Cfg) (sched : List Bool)
+    (hfin : Race.finished (Race.run sched (Race.init c)) = true) :
+    Acked (Race.run sched (Race.init c)) → Protected (Race.run sched (Race.init c)) :=
+  ackSafe_prop (Race.run_ackSafe_fin c sched hfin)
 
 /-- The Volume-interface contract (volume.go): never both "Touch succeeded" and "Trash trashed the
 block"; and an acknowledged TOUCH, or an acknowledged PUT that found an intact copy (compare-and-touch,
 falling back to WriteBlock if the touch fails), is protected. -/
-theorem C04_race_closed (c : Race.Cfg) (sched : List Bool) (_hc : c.pop = .touch ∨ c.pre = .good) :
+theorem C04_race_closed (c : Race.Cfg) (sched : List Bool) (htop : c.top ≠ .untrash)
+    (_hc : c.pop = .touch ∨ c.pre = .good) :
     ¬ ((Race.run sched (Race.init c)).resP = .okTouch ∧ (Race.run sched (Race.init c)).resT = .trashed) ∧
     (Acked (Race.run sched (Race.init c)) → Protected (Race.run sched (Race.init c))) := by
   constructor
   · have h := Race.run_contract c sched
     intro ⟨h1, h2⟩
     simp [Race.contract, h1, h2] at h
-  · exact C04_race_protects c sched
+  · exact C04_race_protects c sched htop
 
 /-- the contract half holds in every configuration -/
 theorem C04_race_contract (c : Race.Cfg) (sched : List Bool) :
@@ -250,9 +262,10 @@ theorem C04_race_contract (c : Race.Cfg) (sched : List Bool) :
 
 /-- A PUT that resolves to WriteBlock (no intact copy on the volume: absent, or a corrupt copy that is
 overwritten): full strength, Serialize on or off. (False before fix 7e105eb: finding F4.) -/
-theorem C04_race_overwrite (c : Race.Cfg) (sched : List Bool) (_hp : c.pop = .put) (_hpre : c.pre ≠ .good) :
+theorem C04_race_overwrite (c : Race.Cfg) (sched : List Bool) (htop : c.top ≠ .untrash)
+    (_hp : c.pop = .put) (_hpre : c.pre ≠ .good) :
     Acked (Race.run sched (Race.init c)) → Protected (Race.run sched (Race.init c)) :=
-  C04_race_protects c sched
+  C04_race_protects c sched htop
 
 /-! the former F4 witness: Serialize off, corrupt old copy; schedule (true = P, false = T):
 T: v.lock, OpenFile, lockfile, Stat (old ⇒ will trash) · P: stat, lock, Open, read (corrupt), MkdirAll,
@@ -287,5 +300,13 @@ example : Acked (Race.run (f4Sched ++ Race.drain) (Race.init { f4Cfg with serial
   Or.inr (by decide +kernel)
 example : (Race.run (f4Sched ++ Race.drain) (Race.init { f4Cfg with serialize := true })).resT = .trashed := by
   decide +kernel
+
+/-! untrash pair: TOUCH opens the old copy, Untrash renames the trashed copy over it, TOUCH stamps BY
+PATH (so it stamps the restored copy), both finish -/
+def uCfg : Race.Cfg := { serialize := false, life0 := false, pre := .good, ageOld := true, pop := .touch, top := .untrash }
+example : Race.finished (Race.run ([true, false, false] ++ Race.drain) (Race.init uCfg)) = true := by decide +kernel
+example : Acked (Race.run ([true, false, false] ++ Race.drain) (Race.init uCfg)) := Or.inl (by decide +kernel)
+example : (Race.run ([true, false, false] ++ Race.drain) (Race.init uCfg)).blk = some .x := by decide +kernel
+example : (Race.run ([true, false, false] ++ Race.drain) (Race.init uCfg)).resT = .restored := by decide +kernel
 
 end ArvVerif.C04
